@@ -256,6 +256,7 @@ pub fn run(cfg: &Cfg) -> i32 {
     gc.externals = true;
     gc.thread_boost = true;
     gc.probe_knot = true;
+    gc.identity_then_change = true;
     let mut sampled = 0;
     for i in 0..nprog {
         if !cfg.mine(i) {
